@@ -966,6 +966,20 @@ SELECTS = {
 }
 
 
+def win(n, tc, off, extra):
+    """output vector of n entries at offset `off` inside a longer buffer: sentinels in front and behind"""
+    L = off + n + extra
+    vals = [4e4 + k for k in range(off)] + [2e4 + k for k in range(n)] + [3e4 + k for k in range(extra)]
+    return matrix([complex(v) for v in vals], (L, 1), "z") if tc == "z" else matrix([float(v) for v in vals], (L, 1), "d")
+
+
+def win_check(v, n, off, extra, what, name):
+    got = [complex(x) for x in list(v)]
+    if got[:off] != [complex(4e4 + k) for k in range(off)] or got[off + n:] != [complex(3e4 + k) for k in range(extra)]:
+        raise Violation("%s: %s changed outside its n entries at offset %d" % (what, name, off))
+    return list(v)[off:off + n]
+
+
 def fam_schur(case, rng):
     z, n, var = case["tc"] == "z", case["n"], case["var"]
     A = rnd(rng, n, n, z)
@@ -977,9 +991,13 @@ def fam_schur(case, rng):
     wantV = case["jobz"] == "V"
     if var == "gees":
         kw = dict(eA.kw(), **dims(case, eA.nat, n=n))
-        w = vec(n, "z", extra=case["extra"]) if case["ipiv"] else None
+        offw = (case["extra"] * 2 + 1) % 4 if (case["ipiv"] and case["extra"]) else 0     # documented keyword offsetw
+        w = win(n, "z", offw, case["extra"]) if case["ipiv"] else None
         if w is not None:
             kw["w"] = w
+            if offw:
+                kw["offsetw"] = offw
+                what += " offsetw=%d" % offw
         eV = None
         if wantV:
             eV = Emb("V", np.zeros((n, n)) + 9e4, L[1], rng, tc=tc)
@@ -1000,10 +1018,9 @@ def fam_schur(case, rng):
         if not _same_multiset(evs, ev_ref):
             raise Violation("%s: eigenvalues of S %r differ from those of A %r" % (what, evs, ev_ref.tolist()))
         if w is not None:
-            if not _same_multiset(list(w)[:n], ev_ref):
-                raise Violation("%s: w %r differs from the eigenvalues of A %r" % (what, list(w)[:n], ev_ref.tolist()))
-            if [complex(v) for v in list(w)[n:]] != [complex(3e4 + i) for i in range(case["extra"])]:
-                raise Violation("%s: w changed beyond its first n entries" % what)
+            wv = win_check(w, n, offw, case["extra"], what, "w")
+            if not _same_multiset(wv, ev_ref):
+                raise Violation("%s: w %r differs from the eigenvalues of A %r" % (what, wv, ev_ref.tolist()))
         if eV is not None:
             V = eV.block()
             eV.outside_unchanged(what)
@@ -1027,9 +1044,15 @@ def fam_schur(case, rng):
         kw = dict(eA.kw(), **eB.kw())
         kw.update(dims(case, eA.nat and eB.nat, n=n))
         a = b = None
+        offa = offb = 0
         if case["ipiv"]:
-            a, b = vec(n, "z", extra=case["extra"]), vec(n, "d", extra=case["extra"])
+            if case["extra"]:
+                offa, offb = case["extra"] % 3, (case["extra"] + 1) % 3 + 1          # documented keywords offseta, offsetb
+            a, b = win(n, "z", offa, case["extra"]), win(n, "d", offb, case["extra"])
             kw.update(a=a, b=b)
+            if case["extra"]:
+                kw.update(offseta=offa, offsetb=offb)
+                what += " offseta=%d offsetb=%d" % (offa, offb)
         eVl = eVr = None
         if wantV:
             eVl = Emb("Vl", np.zeros((n, n)) + 9e4, L[2], rng, tc=tc)
@@ -1050,7 +1073,8 @@ def fam_schur(case, rng):
         if n:
             ref = np.linalg.eigvals(np.linalg.solve(Bm, A))
             if a is not None:
-                lam = [complex(x) / y for x, y in zip(list(a)[:n], list(b)[:n])]
+                av, bv = win_check(a, n, offa, case["extra"], what, "a"), win_check(b, n, offb, case["extra"], what, "b")
+                lam = [complex(x) / y for x, y in zip(av, bv)]
                 if not _same_multiset(lam, ref, tol=1e-7):
                     raise Violation("%s: a/b %r differs from the generalized eigenvalues %r" % (what, lam, ref.tolist()))
         if eVl is not None:
